@@ -153,12 +153,20 @@ def main(argv=None):
             undecided.append('unit %s: non-verification error from verus: %s' % (uname, hard[0].message[:200]))
             continue
         failing_items = {}
+        other_prop_fail = set()
         for d in res.diags:
             if d.category == 'note':
                 continue
             oid, it = obligation_id(unit, d)
             if it is None or pid not in it.props:
                 continue
+            # a contract clause may be restricted to some of the function's properties:  clause, /*props:C15*/
+            sp0 = d.primary()
+            if sp0 and sp0.get('text'):
+                mo = re.search(r'/\*props:([A-Z0-9,]+)\*/', sp0['text'][0]['text'])
+                if mo and pid not in mo.group(1).split(','):
+                    other_prop_fail.add(it.label)
+                    continue
             if d.category == 'resource':
                 undecided.append('unit %s: resource limit in %s' % (uname, it.label))
                 continue
@@ -213,6 +221,10 @@ def main(argv=None):
                 obligations += 1
                 if fr['success']:
                     discharged += 1
+                elif it.label not in failing_items and it.label in other_prop_fail:
+                    # every failing clause of this function is restricted to other properties (/*props:..*/)
+                    discharged += 1
+                    per_ob[-1]['note'] = 'the only failing clauses belong to other properties'
                 elif it.label not in failing_items:
                     undecided.append('unit %s: function %s failed without a diagnostic' % (uname, it.label))
                 # insertion-only integrity (erase-and-diff, token level)
